@@ -46,6 +46,7 @@ class Unit:
         self.harnesses = []  # dicts: name, tier, timeout, bounded
         self.canaries = []
         self.needs = []
+        self.public = False
         for line in open(path):
             if not line.startswith("//"):
                 break
@@ -65,6 +66,8 @@ class Unit:
             m = re.match(r"// @canary (\S+)", line)
             if m:
                 self.canaries.append(m.group(1))
+            if line.startswith("// @pub"):
+                self.public = True  # attached as `pub mod` (visible to another crate of the workspace)
             m = re.match(r"// @needs (\S+)", line)
             if m:
                 self.needs += m.group(1).split(",")
@@ -136,7 +139,7 @@ class Workspace:
             if not os.path.exists(src):
                 raise LostAnchor("attach file %s missing in working tree" % u.attach)
             with open(src, "a") as f:
-                f.write('\n#[cfg(kani)]\n#[path = "%s"]\npub(crate) mod verif_%s;\n' % (u.path, u.name))
+                f.write('\n#[cfg(kani)]\n#[path = "%s"]\n%s mod verif_%s;\n' % (u.path, "pub" if u.public else "pub(crate)", u.name))
         return self
 
     def __exit__(self, *a):
